@@ -114,3 +114,4 @@ Example C14_nonvacuous :
   /\ from_ser_gen refute_h "m" refute_enum "H" None (to_ser_gen "m" true refute_v)
      = Ok (VObj "H" (VCons "xs" (VList (VCons "" (VObj "D3" (VCons "a" (VInt 1) (VCons "b" (VInt 2) VNil))) VNil)) VNil)).
 Proof. vm_compute. repeat split; try reflexivity; eexists; repeat split; reflexivity. Qed.
+Print Assumptions C14_nonvacuous.
